@@ -1206,11 +1206,7 @@ Proof.
           { apply filter_In. split; [exact Hn | rewrite Hnk; reflexivity]. }
           assert (Hc := Hcol n Hin). apply negb_true_iff in Hc. rewrite Hc.
           assert (Hm : mem n rc = true) by (apply smem_In; exact Hn). rewrite Hm. reflexivity. }
-    rewrite S2.
-    replace (map (key_eq 1) (map (fun k : string => (0%nat, k)) ks))
-      with (map (fun q : expr * string => EBin Eq (fst q) (ECol (qn 1 (snd q)))) (map (fun k : string => (ECol (qn 0 k), k)) ks))
-      by (rewrite !map_map; reflexivity).
-    rewrite (map_map (fun k : string => (ECol (qn 0 k), k))). cbn [fst snd app m_fin sp_fin]. unfold eval_st, eval_sp. reflexivity.
+    rewrite S2. rewrite !map_map. cbn [fst snd app m_fin sp_fin]. unfold eval_st, eval_sp. reflexivity.
   - (* expressions *)
     apply andb_true_iff in Hon. destruct Hon as [Hon Hcol].
     apply andb_true_iff in Hon. destruct Hon as [Hne Hrefs].
